@@ -87,22 +87,32 @@ class Graph:
         self._od_real.add(mid)
         n, ms = self._cur, self.mspecs[mid]["extra"]
         if ms.get("bad"):
-            # a registration that cannot be built (its parameters clash with everybody else's): the caller catches
-            # the error and takes the method out again - the set of methods is what it was, and the call goes on
-            src = "def f(acc, x=None):\n    return 'bad'\n"
+            # a registration that cannot be built: the caller catches the error and takes the method out again - the
+            # set of methods is what it was, and the call goes on.  Two kinds (parameters that clash with everybody
+            # else's: fails before anything is rebuilt; call_next not called right away: fails while the methods are
+            # being rewritten one by one), on the function being called or on a parent it links back to.
+            if ms["mid"] % 2:
+                src = "def f(acc, x=None):\n    return 'bad'\n"
+                ann = "acc"
+            else:
+                src = "def f(x, acc=None):\n    nxt = call_next\n    return nxt(x)\n"
+                ann = "x"
             ns, file = load_source(src, self.ns, mid=ms["mid"], tag=self.tag, shared=True)
             self.files.append(file)
             bad = ns["f"]
-            bad.__annotations__ = {"acc": self.env.cls(ms["t"])}
+            bad.__annotations__ = {ann: self.env.cls(ms["t"])}
+            tgt = n
+            if n.lb and n.parents and ms["mid"] % 4 < 2:
+                tgt = n.parents[0]
             try:
-                n.ov.register(bad)
+                tgt.ov.register(bad)
             except Exception as e:  # noqa: BLE001
                 if "locked for modifications" in str(e):
                     self._od_log.append("refused")
                     return
                 self.ondemand_failed += 1
             try:
-                n.ov.unregister(bad)
+                tgt.ov.unregister(bad)
             except Exception:  # noqa: BLE001
                 pass
             self._od_log.append("failed")
